@@ -310,6 +310,8 @@ def check_caret_alignment(ctx, sm, el):
               ('after a comment over two lines', 'select a\nfrom t /* only\n active */\nwhere a = = 1', '=', 2),
               ('after a string over two lines', "select 'x\ny' b\nfrom from t", 'from', 2),
               ('same line as the end of a comment', 'select a /* c1\n c2 */ from from t', 'from', 2),
+              ('first line of three', 'select a from from t\nwhere x = 1\nand y = 2', 'from', 2), ('second line of four', 'select a\nfrom from t\nwhere x = 1\nand y = 2', 'from', 2),
+              ('first line of five', 'selec a\nfrom t\nwhere x = 1\nand y = 2\nand z = 3', 'selec', 1), ('third line of five', 'select a\nfrom t\nwhere x = = 1\nand y = 2\nand z = 3', '=', 2),
               ('end of input', 'select a from', None, 0), ('end of input, long line', f'select {long_cols} from', None, 0),
               ('end of input, second line', 'select a\n  from', None, 0)]
     n = 0
